@@ -377,6 +377,35 @@ func extractAuditOverrides(x *ExtractCtx) error {
 		}
 	}
 
+	// the Operation constants' string values (what is actually written to the log)
+	enF, err := x.ParseFile("internal/auditlog/entry.go")
+	if err != nil {
+		return err
+	}
+	opValue := map[string]string{}
+	for _, d := range enF.Decls {
+		if gd, ok := d.(*ast.GenDecl); ok && gd.Tok == token.CONST {
+			for _, sp := range gd.Specs {
+				vs := sp.(*ast.ValueSpec)
+				if id, ok := vs.Type.(*ast.Ident); ok && id.Name == "Operation" && len(vs.Names) == 1 && len(vs.Values) == 1 {
+					if bl, ok := vs.Values[0].(*ast.BasicLit); ok && bl.Kind == token.STRING {
+						opValue["auditlog."+vs.Names[0].Name] = strings.Trim(bl.Value, "\"")
+					}
+				}
+			}
+		}
+	}
+	for i := range facts {
+		if facts[i].Op == "" {
+			continue
+		}
+		v, ok := opValue[facts[i].Op]
+		if !ok {
+			return fmt.Errorf("%s: operation constant %s not found in entry.go", facts[i].Method, facts[i].Op)
+		}
+		facts[i].Op = v
+	}
+
 	L := x.Lean
 	fmt.Fprintf(L, "namespace Pithos.Gen.AuditOverrides\n\n")
 	fmt.Fprintf(L, "/-- Methods of the interfaces embedded in `storage.Storage` that are declared in storage.go (the storage calls). -/\n")
@@ -388,7 +417,7 @@ func extractAuditOverrides(x *ExtractCtx) error {
 	var rows []string
 	for _, f := range facts {
 		ov = append(ov, f.Method)
-		rows = append(rows, fmt.Sprintf("(%s, %s, %s, %v, %v, %s)", LeanStr(f.Method), LeanStr(strings.TrimPrefix(f.Op, "auditlog.Op")), LeanStr(f.Shape), f.Start, f.Complete, LeanStr(f.Inner)))
+		rows = append(rows, fmt.Sprintf("(%s, %s, %s, %v, %v, %s)", LeanStr(f.Method), LeanStr(f.Op), LeanStr(f.Shape), f.Start, f.Complete, LeanStr(f.Inner)))
 	}
 	fmt.Fprintf(L, "def auditOverrides : List String := %s\n", LeanStrList(ov))
 	fmt.Fprintf(L, "/-- (method, operation constant, shape, START before the inner call, COMPLETE(err) after it, inner method called) -/\n")
@@ -399,6 +428,5 @@ func extractAuditOverrides(x *ExtractCtx) error {
 	fmt.Fprintf(L, "def logCritical : List String := %s\n", LeanStrList(logSteps))
 	fmt.Fprintf(L, "def groundingCritical : List String := %s\n", LeanStrList(grSteps))
 	fmt.Fprintf(L, "\nend Pithos.Gen.AuditOverrides\n")
-	_ = token.NoPos
 	return nil
 }
